@@ -48,11 +48,12 @@ type SkelSpec struct {
 }
 
 type Spec struct {
-	Module  string     `json:"module"`  // output file Gen/<Module>.lean
-	Imports []string   `json:"imports"` // other Gen modules this one refers to
-	Consts []ConstSpec `json:"consts"`
-	Preds  []PredSpec  `json:"preds"`
-	Skels  []SkelSpec  `json:"skels"`
+	Module       string      `json:"module"`        // output file Gen/<Module>.lean
+	Imports      []string    `json:"imports"`       // other Gen modules this one refers to
+	ModelImports []string    `json:"model_imports"` // hand-written Model modules (receiver structures of translated predicates)
+	Consts       []ConstSpec `json:"consts"`
+	Preds        []PredSpec  `json:"preds"`
+	Skels        []SkelSpec  `json:"skels"`
 }
 
 var fset = token.NewFileSet()
@@ -644,6 +645,9 @@ func genModule(repo string, spec *Spec, outDir string) {
 	cs.WriteString("/- GENERATED from the Go source by /verif/extract on every run. Do not edit. -/\nimport TunnoxModel.Model.PredPrelude\n")
 	for _, im := range spec.Imports {
 		cs.WriteString("import TunnoxModel.Gen." + im + "\n")
+	}
+	for _, im := range spec.ModelImports {
+		cs.WriteString("import TunnoxModel.Model." + im + "\n")
 	}
 	cs.WriteString("open Tunnox.PredPrelude\nnamespace Gen\n\n")
 	for _, c := range spec.Consts {
